@@ -54,6 +54,7 @@ def run_case(spec):
   else:
     G = r.randrange(2, 7 if tier == 'quick' else 8)
     case = sl.make_case(r, g, G, id_style=r.choice(['intmix', 'numstr', 'int', 'str']),
+                        cls=('giant' if spec['idx'] % 12 == 5 else 'near_twins' if spec['idx'] % 12 == 7 else None),
                         focus=r.choice([None, 'ngeos', 'budget', 'share']),
                         elig_mode=r.choice(['mixed', 'mostly_ctx', 'mixed', 'none']))
   if case['elig_rows'] is not None and r.random() < 0.6:
